@@ -28,5 +28,5 @@ Proof. intros Hc H1 H2. unfold loop_turn. rewrite Hc. cbn [sop_apply site_info_d
               (if rq_first r then match rq_forced r with Some b => b | None => true end else false)) as [m h'].
   cbn [fst rq_next rq_delay]. split; reflexivity. Qed.
 
-Definition sites_C18_counts : Prop := ncmp_services_info_ServiceInfo_async_request = 3.
-Lemma sites_C18_counts_ok : sites_C18_counts. Proof. reflexivity. Qed.
+Definition sites_C18_counts : Prop := sites_found_C18 = true /\ ncmp_services_info_ServiceInfo_async_request = 3.
+Lemma sites_C18_counts_ok : sites_C18_counts. Proof. repeat split; reflexivity. Qed.
